@@ -1364,7 +1364,7 @@ def run(ctx):
     if not ctx.quick():
         ctx.enumerate("choose", grid_cases(), name="route-x-request-grid")
     ctx.search("choose", choose_cases(), quick=1800, thorough=20000)
-    ctx.search("session", session_cases(), quick=800, thorough=8000)
+    ctx.search("session", session_cases(), quick=800, thorough=5000)
     ctx.search("fallback", fallback_cases(), quick=500, thorough=5000)
 
 
